@@ -284,4 +284,6 @@ func runC12(c *report.Ctx) {
 	ruleGapWindowExtends(c)
 	ruleAddressRowKeyForm(c)
 	rulePersistedIndexClamped(c)
+	ruleGapLimitUnmodified(c)
+	ruleExternalScanAlwaysRuns(c)
 }
